@@ -21,7 +21,8 @@ import tempfile as _tempfile
 
 import gunicorn.pidfile as gp
 
-REAL = {1: 41001, 2: 41002, 3: 51003, 4: 51004, 5: 51005}
+# (the foreign pids 3 and 5 extend the digits of the instances' pids 1 and 2: "41001" is a prefix of "410015")
+REAL = {1: 41001, 2: 41002, 3: 410015, 4: 51004, 5: 410029}
 ABS = {v: k for k, v in REAL.items()}
 NAMES = {"p": "gunicorn.pid", "q": "gunicorn.pid.2"}
 
